@@ -293,8 +293,8 @@ def findability(rec, F):
             # a native registers through the hook, on the path where the state did change; the VM's implementation of the hook must register
             hook = [b2 for b2, t2 in fn.calls() if lastseg(t2["f"]) == "use_channel" and "hooks::Hooks" in t2["f"] and sem.reaches(fn, bi, b2)]
             if hook:
-                vmimpl = F.find1(r"<laythe_vm::vm::Vm as laythe_core::hooks::ValueContext>::use_channel$")
-                fwd = F.find1(r"laythe_core::hooks::ValueHooks.*::use_channel$")
+                vmimpl = F.find1(r"laythe_vm::vm::impls::<impl laythe_core::hooks::ValueContext for laythe_vm::vm::Vm>::use_channel$")
+                fwd = F.find1(r"laythe_core::hooks::ValueHooks(::<'a>)?::use_channel$")
                 if vmimpl is not None and any(lastseg(t3["f"]) == "add_used_channel" for _, t3 in vmimpl.calls()) and fwd is not None and any(lastseg(t3["f"]) == "use_channel" for _, t3 in fwd.calls()):
                     reg = reg + hook
             wake = [b2 for b2, t2 in fn.calls() if lastseg(t2["f"]) in ("queue_blocked_fiber",)]
